@@ -31,6 +31,14 @@ func execMap(op string, a []string) string {
 		if err != nil {
 			return "err-reencode"
 		}
+		// a destination that already holds entries ends up with exactly the decoded map
+		used := key.CoseMap{1: 4, -4: []byte{1, 2, 3}, 4: []any{uint64(10)}, "stale": true, 99: "x"}
+		if err := used.UnmarshalCBOR(unhx(a[0])); err != nil {
+			return "REUSED-DESTINATION-FAILED"
+		}
+		if out2, _ := used.MarshalCBOR(); string(out2) != string(out) {
+			return "ok " + hx(out) + " REUSED-DESTINATION-DIFFERS " + hx(out2)
+		}
 		return "ok " + hx(out)
 	case "map.toint":
 		v, _ := parseVal(a, 0)
